@@ -251,7 +251,7 @@ PROPS["C13"]["trusted_base"] = PROPS["C13"]["trusted_base"] + HIST_TB
 
 PROPS["C18"]["modes"] = PROPS["C18"]["modes"] + ["hist"]
 PROPS["C18"]["nontrivial"]["hist"] = _hist_nontrivial
-PROPS["C18"]["monitors"] = PROPS["C18"]["monitors"] + ["wantedFromNewText", "runSetAsPredicted"]
+PROPS["C18"]["monitors"] = PROPS["C18"]["monitors"] + ["wantedFromNewText", "runSetAsPredicted", "unknownRejected"]
 PROPS["C18"]["rule"] += " || names resolved against the reloaded manifest: " + HIST_RULE
 PROPS["C18"]["claim"] += (" Command-line names are resolved against the RELOADED manifest: carried by the history mode (manifest generators "
     "whose output renumbers or adds files), monitor wantedFromNewText.")
@@ -379,3 +379,15 @@ PROPS["C20"]["rule"] += (" || frames: 4000 (quick) / 60000 (thorough) random fra
 PROPS["C16"]["claim"] += (" Output directories along a whole invocation (output_dirs_exist_every_step): also after earlier commands removed directory "
     "trees, the parent of each output exists when its step's command starts (create_parent_dirs runs before EVERY command); observed on the real "
     "binary by the family `n2bin outchain` (chains of steps whose commands rm -rf directories).")
+
+PROPS["C15"]["claim"] += (" LAST LINE WITHOUT NEWLINE (parse_reads_last_line_without_newline): the same when the file ends right after the last "
+    "entry; the loop body is proved once for an entry ended by a newline OR by the end of the file (entry_spec), the loop over entries for "
+    "any tail on which the loop is known (parseLoop_spec_gen). CR LF line ends remain correspondence-only.")
+
+PROPS["C02"]["claim"] += (" WHAT AN INVOCATION MAY CHANGE (invocation_changes_only_outputs, Lemmas/SchedEnv + WorkFrame): through the whole of "
+    "run::build, for every loadable world, arguments and scheduling: every file that is not an output of a build statement (nor the private "
+    "input an rw command of the abstract semantics rewrites) keeps its exact state; the log only grows; the signatures loaded at start-up, the "
+    "build statements, the ids and names of known files are unchanged; proved from a generic lemma (build_env: run::build preserves every "
+    "environment property that check_build_dirty, a command's completion + record_finished, and -t restat adoption preserve).")
+PROPS["C18"]["claim"] += (" A name only the build log knows (removed step's output, depfile-only header) is rejected like any unknown name "
+    "(log_only_name_rejected; finding F13 repaired, the model carries State::manifest_files); monitor unknownRejected on histories that name such files.")
